@@ -16,10 +16,31 @@ class Crate(object):
             self.by_norm.setdefault(norm_path(b["path"]), []).append(b)
         self.statics = {s["path"]: s for s in data.get("statics", [])}
         self.adts = {a["path"]: a for a in data.get("adts", [])}
+        self._inlined = {}
 
-    def body(self, npath):
+    def raw_body(self, npath):
         bs = self.by_norm.get(npath)
         return bs[0] if bs else None
+
+    def body(self, npath, inline=None):
+        """Body by normalised path. For the macro crate (`lexgen`) helper calls are inlined by default
+        (lexlint/inline.py), so that rules see through extracted helpers and small combinators."""
+        b = self.raw_body(npath)
+        if b is None:
+            return None
+        if inline is None:
+            inline = self.name in ("lexgen", "lexgen_util")
+        if not inline:
+            return b
+        if npath not in self._inlined:
+            from . import inline as _inl
+            self._inlined[npath] = _inl.inline_body(self, b)[0]
+        return self._inlined[npath]
+
+    def ibodies(self):
+        """All bodies of the crate, helper calls inlined (macro crate only)."""
+        for b in self.bodies:
+            yield self.body(norm_path(b["path"])) if self.by_norm[norm_path(b["path"])][0] is b else b
 
     def adt(self, path):
         return self.adts.get(path)
